@@ -24,6 +24,10 @@ def tlsreader (impl : String) : P Verdict := do
   let total := (cs.map List.length).sum
   pure (ok s!"tlsreader:{if total > 65540 then "huge" else if cs.length > 1 then "chunked" else "single"}" impl)
 
+def tlsflow (impl : String) : P Verdict := do
+  let k ← tok; let n ← nat; let _ ← bytes
+  pure (ok s!"tlsflow:{k}:{if n > 1 then "split" else "single"}" impl)
+
 def http (impl : String) : P Verdict := do
   let b ← bytes; let _ ← nat
   let kind := if b.take 4 == [80, 82, 73, 32] then "h2" else if b.take 5 == [72, 84, 84, 80, 47] then "resp" else "other"
@@ -34,6 +38,6 @@ def db (impl : String) : P Verdict := do
   pure (ok "db" impl)
 
 def handlers : List (String × (String → P Verdict)) :=
-  [("C01.frame", frame), ("C01.pool", pool), ("C01.tlsreader", tlsreader), ("C01.http", http), ("C01.db", db)]
+  [("C01.frame", frame), ("C01.pool", pool), ("C01.tlsreader", tlsreader), ("C01.tlsflow", tlsflow), ("C01.http", http), ("C01.db", db)]
 
 end Huginn.Drv.C01
